@@ -10,6 +10,7 @@ spelling is not a change, equivalent spellings are mapped to one form here:
   * if not c: A else: B          ->  if c: B else: A       (plain else; also the conditional expression; likewise
                                      `if a != b: A else: B` -> `if a == b: B else: A` for !=, not in, is not)
   * x = x + e / x = x - e        ->  x += e / x -= e       (plain name; the analyses treat both as an update of x)
+  * t = E; return t              ->  return E              (t a plain local bound right before the return and used nowhere else)
 
 Line numbers are kept; nothing else is rewritten.  The repository source is never modified -- this works on the parsed tree."""
 import ast
@@ -91,5 +92,48 @@ class Canon(ast.NodeTransformer):
         return n
 
 
+def _inline_return_temps(fn):
+    """`t = E` immediately followed by `return t`: return E -- when every read of t in the function is such a return."""
+    loads = {}
+    for x in ast.walk(fn):
+        if isinstance(x, ast.Name) and isinstance(x.ctx, ast.Load):
+            loads[x.id] = loads.get(x.id, 0) + 1
+    lists = []
+    for node in ast.walk(fn):
+        for fld in ('body', 'orelse', 'finalbody'):
+            b = getattr(node, fld, None)
+            if isinstance(b, list) and b and isinstance(b[0], ast.stmt):
+                lists.append((node, fld, b))
+
+    def is_pair(st, nxt):
+        return isinstance(st, ast.Assign) and len(st.targets) == 1 and isinstance(st.targets[0], ast.Name) and isinstance(nxt, ast.Return) and \
+            isinstance(nxt.value, ast.Name) and nxt.value.id == st.targets[0].id
+    pairs = {}
+    for node, fld, b in lists:
+        for i in range(len(b) - 1):
+            if is_pair(b[i], b[i + 1]):
+                pairs[b[i].targets[0].id] = pairs.get(b[i].targets[0].id, 0) + 1
+    ok = {t for t, n in pairs.items() if loads.get(t) == n}
+    if not ok:
+        return
+    for node, fld, b in lists:
+        out = []
+        i = 0
+        while i < len(b):
+            st = b[i]
+            nxt = b[i + 1] if i + 1 < len(b) else None
+            if is_pair(st, nxt) and st.targets[0].id in ok:
+                out.append(ast.copy_location(ast.Return(st.value), st))
+                i += 2
+                continue
+            out.append(st)
+            i += 1
+        setattr(node, fld, out)
+
+
 def canonical(tree):
-    return ast.fix_missing_locations(Canon().visit(tree))
+    tree = Canon().visit(tree)
+    for fn in ast.walk(tree):
+        if isinstance(fn, (ast.FunctionDef, ast.AsyncFunctionDef)):
+            _inline_return_temps(fn)
+    return ast.fix_missing_locations(tree)
